@@ -6,6 +6,7 @@ import (
 	"fmt"
 	"math/rand"
 	"regexp"
+	"sort"
 	"strings"
 
 	"github.com/evolbioinfo/goalign/align"
@@ -80,13 +81,15 @@ func c01(args []string) error {
 			sb = b
 		}
 		nsteps := 1 + r.Intn(8)
+		trimMap := map[string]string{}
+		curPolicy := align.IGNORE_NONE
 		steps := []string{}
 		hist := []string{}
 		bad := false
 		for sidx := 0; sidx < nsteps && !bad; sidx++ {
 			var opterm string
 			var f func() error
-			kind := r.Intn(19)
+			kind := r.Intn(21)
 			curL := L
 			if isAlign && al.Length() >= 0 {
 				curL = al.Length()
@@ -99,7 +102,7 @@ func c01(args []string) error {
 					l = r.Intn(6)
 				}
 				s := seqOfLen(l)
-				if r.Intn(4) == 0 && sb.NbSequences() > 0 { // same name and same sequence as an existing row
+				if (r.Intn(4) == 0 || (curPolicy == align.IGNORE_SEQUENCE && r.Intn(2) == 0)) && sb.NbSequences() > 0 { // same name and same sequence as an existing row
 					k := r.Intn(sb.NbSequences())
 					n, _ = sb.GetSequenceNameById(k)
 					switch r.Intn(3) {
@@ -125,6 +128,7 @@ func c01(args []string) error {
 			case 3:
 				p := []int{align.IGNORE_NONE, align.IGNORE_NAME, align.IGNORE_SEQUENCE, 7}[r.Intn(4)]
 				opterm = "BPolicy " + coqZ(p)
+				curPolicy = p
 				f = func() error { sb.IgnoreIdentical(p); return nil }
 			case 4:
 				if !isAlign {
@@ -222,6 +226,19 @@ func c01(args []string) error {
 					}
 					return nil
 				}
+			case 19, 20: // TrimNames with the history's shared name map
+				size := 3 + r.Intn(4)
+				keys := make([]string, 0, len(trimMap))
+				for k := range trimMap {
+					keys = append(keys, k)
+				}
+				sort.Strings(keys)
+				it := []string{}
+				for _, k := range keys {
+					it = append(it, fmt.Sprintf("(%s, %s)", coqStr(k), coqStr(trimMap[k])))
+				}
+				opterm = fmt.Sprintf("BTrim %s %s", coqList(it), coqZ(size))
+				f = func() error { return sb.TrimNames(trimMap, size) }
 			case 15, 16:
 				ii, jj := boundaryInt(r, sb.NbSequences()), boundaryInt(r, curL)
 				c := "ACGT-"[r.Intn(5)]
